@@ -1,9 +1,15 @@
 #!/bin/bash
-# try_seed.sh <seed-id> : apply /verif/seeded/<id>/patch.diff to /repo, run the property's quick check, revert.
-id=$1; prop=${id%%-*}
+# try_seed.sh <seed-id> [property...] : apply /verif/seeded/<id>/patch.diff to /repo, run the
+# quick check of the seed's property (or of the listed properties), revert.
+id=$1; shift
+props="$*"; [ -z "$props" ] && props=${id%%-*}
 cd /repo && test -z "$(git status --porcelain)" || { echo "/repo has uncommitted changes; commit them first"; exit 3; }
 cd /repo && git apply /verif/seeded/$id/patch.diff || { echo "$id: patch does not apply"; exit 2; }
-cd /verif && out=$(./govc/bin/govc check $prop 2>&1); rc=$?
-cd /repo && git checkout -- . 
-echo "$out" | grep -E "^VIOLATION|^property=" | cut -c1-260
-if [ $rc -eq 1 ]; then echo "$id: CAUGHT"; else echo "$id: MISSED (rc=$rc)"; fi
+caught=0
+for prop in $props; do
+  cd /verif && out=$(./govc/bin/govc check $prop 2>&1); rc=$?
+  echo "$out" | grep -E "^VIOLATION|^property=" | cut -c1-260
+  [ $rc -eq 1 ] && caught=1
+done
+cd /repo && git checkout -- .
+if [ $caught -eq 1 ]; then echo "$id: CAUGHT"; else echo "$id: MISSED"; fi
